@@ -135,7 +135,29 @@ def enc_answer(a):
     return [2, KINDS[a[2:]][0]]
 
 
+def split_default(script):
+    """a script whose last element is "*<action>" describes a sink that answers <action> to every call after the script"""
+    if script and script[-1].startswith("*"):
+        return script[:-1], script[-1][1:]
+    return script, None
+
+
+def sink_req(script):
+    sc, d = split_default(script)
+    r = {"script": sc, "record": True}
+    if d:
+        r["default"] = d
+    return r
+
+
+def answer_at(script, i):
+    sc, d = split_default(script)
+    return sc[i] if i < len(sc) else (d or "full")
+
+
 def enc_drive(script, W):
+    sc, d = split_default(script)
+    script = sc + ([d] * (sum(len(w) for w in W) + len(W) + 2) if d else [])      # the model's scripts end in "accept everything"
     out = [len(script)]
     for a in script:
         out += enc_answer(a)
@@ -166,6 +188,78 @@ def first_failure(script, W_total_calls=None):
         if a == "a0" or (a.startswith("e:") and a != "e:interrupted"):
             return i
     return None
+
+
+
+# every kind of value printed straight to the sink (each Display may issue several writes: the sink can fail between them)
+VALUE_CTX = {"f_int": 3.0, "f_frac": 2.5, "f_neg": -7.0, "f_big": 1e20, "f_tiny": 1.5e-7, "f_huge": 1.7e308, "i_neg": -42, "i_zero": 0, "i_big": 9007199254740993,
+             "b_t": True, "b_f": False, "nil": None, "s_plain": "plain", "s_meta": "<a href=\"x\">it's</a>&/", "s_empty": "", "s_uni": "naïve 中文",
+             "lst": [1, 2.0, "<a>", [True, None, -0.5]], "mp": {"k": 1.0, "<q>": [2.0, {"z": "'"}]}, "empty_l": [], "empty_m": {}}
+VALUE_EXPRS = ["f_int", "f_frac", "f_neg", "f_big", "f_tiny", "f_huge", "i_neg", "i_zero", "i_big", "b_t", "b_f", "nil", "s_plain", "s_meta", "s_empty", "s_uni", "lst", "mp",
+               "empty_l", "empty_m", "fnan", "finf", "fninf", "fnegzero", "ubig", "imin", "u64max", "raw_bytes", "ch", "obj", "undefined_name",
+               "s_meta|safe", "[f_int, f_neg]", "{'a': f_int, 'b': [fnegzero]}", "[obj, s_meta|safe, raw_bytes]", "f_int + 1", "f_int * 2.0", "1.0", "-0.0", "2.0 ** 3", "10 / 4", "10 / 5",
+               "f_int|string", "f_int ~ ''", "lst|tojson", "f_int|tojson", "mp|items|list", "range(3)", "lst|map('string')|list", "f_int|round", "f_frac|round(1)", "i_neg|abs|float",
+               "namespace(a=f_int)", "loop|default(f_int)", "s_meta|upper", "lst[1]", "mp.k", "(f_int, f_frac)", "f_int if b_t else 0", "lst|last|last"]
+
+
+def value_programs():
+    out = []
+    for ext in ("txt", "html", "json"):
+        for i in range(0, len(VALUE_EXPRS), 4):
+            grp = VALUE_EXPRS[i:i + 4]
+            src = "".join("%d={{ %s }};" % (j, e) for j, e in enumerate(grp))
+            out.append(Prog({"v." + ext: src}, "v." + ext, "template", VALUE_CTX, "lenient", label="values", objects=True))
+        # inside a loop / include / block, still straight to the sink
+        out.append(Prog({"v." + ext: "{% for q in [f_int, f_neg, fnegzero, f_big] %}[{{ q }}]{% endfor %}{% include 'w." + ext + "' %}{% block b %}{{ f_int }}{{ [f_int] }}{% endblock %}",
+                         "w." + ext: "w={{ f_int }}|{{ f_frac }}|{{ finf }}"}, "v." + ext, "template", VALUE_CTX, "lenient", label="values", objects=True))
+    return out
+
+
+def multi_programs(rng, n):
+    """random multi-template programs: include chains of depth 2-3 (plain / ignore missing / lists / in loops and captures),
+    extends + super(), import bodies and imported macros; every level writes raw text and values of several kinds"""
+    vals = ["f_int", "f_frac", "s_meta", "i_neg", "lst", "nil", "b_t", "obj", "f_neg", "s_meta|safe", "mp.k", "fnegzero"]
+    out = []
+    for _ in range(n):
+        exts = [rng.choice(["txt", "txt", "html", "json"]) for _ in range(6)]
+        depth = 2 + rng.below(2)
+        names = ["t%d.%s" % (i, exts[i]) for i in range(depth + 1)]
+        t = {}
+
+        def emit():
+            return "{{ %s }}" % rng.choice(vals)
+
+        def include_stmt(target):
+            c = rng.below(8)
+            if c == 0: return "{% include '" + target + "' %}"
+            if c == 1: return "{% include '" + target + "' ignore missing %}"
+            if c == 2: return "{% include ['nope.txt', '" + target + "'] %}"
+            if c == 3: return "{% include ['nope.txt', '" + target + "'] ignore missing %}"
+            if c == 4: return "{% for i in [1, 2] %}<{% include '" + target + "' ignore missing %}>{% endfor %}"
+            if c == 5: return "{% set cap %}{% include '" + target + "' %}{% endset %}({{ cap }})"
+            if c == 6: return "{% include 'gone.txt' ignore missing %}{% include '" + target + "' ignore missing %}"
+            return "{% if b_t %}{% include '" + target + "' %}{% endif %}"
+        for lvl in range(depth, -1, -1):
+            body = "L%d[" % lvl + emit()
+            if lvl < depth:
+                body += "|" + include_stmt(names[lvl + 1]) + "|" + emit()
+                if rng.chance(1, 3):
+                    body += include_stmt(names[lvl + 1])
+            else:
+                body += "=" + emit() + emit()
+            body += "]"
+            t[names[lvl]] = body
+        main = names[0]
+        c = rng.below(4)
+        if c == 0:      # main becomes a child of a base; the chain sits in a block next to super()
+            t["base." + exts[4]] = "B<{% block a %}base:" + emit() + "{% include '" + names[1] + "' ignore missing %}{% endblock %}|{% block z %}z{% endblock %}>" + emit()
+            t["child." + exts[5]] = "{% extends 'base." + exts[4] + "' %}{% block a %}C(" + t[names[0]] + "|{{ super() }}){% endblock %}"
+            main = "child." + exts[5]
+        elif c == 1:    # imported macros and import bodies (a module body's own output is discarded)
+            t["lib." + exts[4]] = "libtext" + emit() + "{% macro m(v) %}m<{{ v }}{% include '" + names[depth] + "' ignore missing %}>{% endmacro %}{% macro k() %}" + emit() + "{% endmacro %}"
+            t[names[0]] = "{% import 'lib." + exts[4] + "' as L %}{% from 'lib." + exts[4] + "' import k %}" + t[names[0]] + "{{ L.m(f_int) }}{{ k() }}{% call L.m(1) %}x{% endcall %}"
+        out.append(Prog(t, main, "template", VALUE_CTX, "lenient", label="multi", objects=True))
+    return out
 
 
 class GenS(proggen.Gen):
@@ -209,6 +303,8 @@ def gen_programs(chk):
             progs.append(Prog(t, main, entry, FAMILY_CTX, ub, label="family"))
     for t, main, entry, fm, ob in WRITER_PATHS:
         progs.append(Prog(t, main, entry, FAMILY_CTX, "lenient", label="family", formatter=fm, objects=ob))
+    progs += value_programs()
+    progs += multi_programs(rng, 2000 if chk.thorough else 150)
     n = 20000 if chk.thorough else 400
     for j in range(n):
         html = j % 2 == 1
@@ -237,6 +333,8 @@ def scripts_for(chk, W, thorough):
         for kind in MAIN_KINDS:
             out.append(["full"] * k + ["e:" + kind])
     pts = list(range(n)) if (thorough or n <= 12) else sorted({rng.below(n) for _ in range(6)})
+    for k in range(n):                         # a sink that KEEPS failing from call k on
+        out.append(["full"] * k + ["*e:" + MAIN_KINDS[k % 3]])
     for k in pts:
         out.append(["full"] * k + ["a0"])
         out.append(["full"] * k + ["e:" + rng.choice(["timedout", "unexpectedeof"])])
@@ -272,7 +370,7 @@ def judge(prog, script, free, obs):
         return "%d write call(s) after the sink had failed" % obs["calls_after_fail"]
     ff = obs.get("first_fail")
     if ff is not None:
-        a = script[ff] if ff < len(script) else "full"
+        a = answer_at(script, ff)
         if "err" not in r:
             return "the sink failed at call %d but the render returned success" % ff
         if r["err"] != 19:
@@ -375,7 +473,7 @@ def main():
             if info is None:
                 continue
             scs = [replay_script] if replay_script is not None else scripts_for(chk, info["W"], chk.thorough)
-            reqs.append(p.req([{"script": sc, "record": True} for sc in scs]))
+            reqs.append(p.req([sink_req(sc) for sc in scs]))
             plan.append((pi, scs))
         outs = run_c19(reqs, release=rel)
         cases, case_ref = [], []
@@ -393,7 +491,9 @@ def main():
                 case_ref.append((pi, sc, ob))
                 if not rel:
                     ff = ob.get("first_fail")
-                    a = (sc[ff] if ff is not None and ff < len(sc) else None)
+                    a = (answer_at(sc, ff) if ff is not None else None)
+                    if split_default(sc)[1]:
+                        hist["keeps_failing_sinks"] += 1
                     hist["answer_at_failure=" + str(a)] += 1
                     if any(x.startswith("a") and x != "a0" for x in sc[:ob["calls"]]):
                         hist["with_short_writes"] += 1
